@@ -46,6 +46,8 @@ pub use initialized::{ClientConfig, init_analysis, initialized_handler};
 use lsp_types::{ClientCapabilities, ServerCapabilities};
 pub use notification_handler::on_notification_handler;
 pub use request_handler::on_request_handler;
+#[cfg(emmyluals_emmylua_analyzer_rust_verif)]
+pub use semantic_token::verif_semantic_push_and_build;
 pub use response_handler::on_response_handler;
 pub use text_document::register_files_watch;
 
